@@ -226,6 +226,10 @@ class PolyInterp:
         # (q*w + r) / w = q when 0 <= r < w  (both from declared facts)
         if not b.is_const() or True:
             q, r = self.split_multiple(a, b)
+            if q is not None and not r.t and not b.is_const():
+                # exact multiple: (q*b)/b == q for every non-zero b
+                self.assumed.add("divisor %r is non-zero (documented precondition of step iterators)" % (b,))
+                return Poly() if rem else q
             if q is not None:
                 rr, rb = self.rng(r), self.rng(b)
                 if rr is not None and rb is not None and rr[0] >= 0 and rb[0] > 0:
@@ -237,7 +241,12 @@ class PolyInterp:
                             return r if rem else q
         if rem:
             dv = "sdiv" if signed else "udiv"
-            return a - b * self.fn_atom(dv.upper(), a, b)
+            return a - b * self.div(dv, a, b)
+        if signed and a.t:
+            # truncating division is odd in the numerator: (-a)/b == -(a/b); canonical sign = first term positive
+            lead = sorted(a.t.items(), key=lambda kv: (len(kv[0]), kv[0]))[0][1]
+            if lead < 0:
+                return -self.fn_atom("SDIV", -a, b)
         return self.fn_atom(op.upper(), a, b)
 
     def split_multiple(self, a, b):
@@ -498,7 +507,12 @@ class PolyInterp:
             val = self.value_any(v)
             self.store(self.operand(ops[1]), inst["size"], val, inst)
         elif op in ("icmp",):
-            self.val[i] = self.cmp(inst["pred"], self.operand(ops[0]), self.operand(ops[1]))
+            pred = inst["pred"]
+            if pred[0] == "u" and self.is_ptr(ops[0]) and self.is_ptr(ops[1]):
+                # relational comparison of pointers into one object: decided by the signed difference
+                self.assumed.add("relationally compared pointers point into the same object (C++ [expr.rel])")
+                pred = "s" + pred[1:]
+            self.val[i] = self.cmp(pred, self.operand(ops[0]), self.operand(ops[1]))
         elif op == "fcmp":
             self.val[i] = self.fn_atom("FCMP_" + inst["pred"], self.operand(ops[0]), self.operand(ops[1]))
         elif op == "select":
@@ -670,6 +684,18 @@ class PolyInterp:
         if o["k"] == "const_other":
             return Agg({})
         return self.operand(o)
+
+    def is_ptr(self, o):
+        if o["k"] == "v":
+            inst = self.inst_of.get(o["id"])
+            return bool(inst) and inst["type"].get("k") == "ptr"
+        if o["k"] == "arg":
+            return self.fn["args"][o["idx"]]["type"].get("k") == "ptr"
+        if o["k"] == "null":
+            return True
+        if o["k"] == "ce":
+            return o.get("type", {}).get("k") == "ptr"
+        return o["k"] in ("g",)
 
     def is_bool(self, o):
         if o["k"] == "v":
